@@ -1021,10 +1021,16 @@ impl NodeId {
             final(arena).nodes@.len() == old(arena).nodes@.len(),
             // @ob C12.remove_subtree_removes_the_node C12 C04
             final(arena).at(self).stamp.removed(),
+            // @ob C04.remove_subtree_deletes_exactly_the_subtree C04 C08
+            exists|m: Seq<Node<T>>| #[trigger]
+                detach_post(old(arena).nodes@, m, self.idx()) && subtree_removed_post(m, final(arena).nodes@, self.idx()),
     {
         self.detach(arena);
         let ghost w = choose|w: Ranks| ranked(arena.nodes@, w);
         let ghost s1 = arena.nodes@;
+        proof {
+            assert(in_sub(s1, w, self.idx(), self.idx()));
+        }
         let mut cursor = Some(self);
         while let Some(id) = cursor
             invariant
@@ -1035,6 +1041,10 @@ impl NodeId {
                 cursor is Some ==> tgt_ok(arena.nodes@, cursor) && in_sub(arena.nodes@, w, self.idx(), cursor->0.idx()),
                 cursor is Some ==> arena.live(self) && arena.at(self).parent is None,
                 cursor is None ==> arena.at(self).stamp.removed(),
+                links_ok(s1),
+                ranked(s1, w),
+                !s1[self.idx()].stamp.removed(),
+                rs_inv(s1, arena.nodes@, w, self.idx(), cursor),
             ensures
                 cursor is None,
             // @ob C02.remove_subtree_terminates C02
@@ -1050,6 +1060,7 @@ impl NodeId {
             cursor = if let Some(first_child) = node.first_child {
                 proof {
                     lemma_first_child_in_sub(s_in, w, self.idx(), id);
+                    lemma_rs_descend(s1, s_in, w, self.idx(), id);
                 }
                 Some(first_child)
             } else {
@@ -1065,9 +1076,14 @@ impl NodeId {
                     lemma_live_count_same(s_in, s_mid);
                     lemma_live_count_free(s_mid, arena.nodes@, id.idx());
                     lemma_leaf_removed_frame(s_in, s_mid, arena.nodes@, w, self.idx(), id);
+                    lemma_rs_leaf(s1, s_in, s_mid, arena.nodes@, w, self.idx(), id);
                 }
                 parent
             };
+        }
+        proof {
+            lemma_rs_done(s1, arena.nodes@, w, self.idx());
+            assert(detach_post(old(arena).nodes@, s1, self.idx()) && subtree_removed_post(s1, arena.nodes@, self.idx()));
         }
     }
 }
